@@ -15,8 +15,10 @@ import (
 	"github.com/ProtonMail/go-crypto/openpgp"
 
 	"github.com/sassoftware/relic/v8/config"
+	"github.com/sassoftware/relic/v8/internal/signinit"
 	"github.com/sassoftware/relic/v8/server"
 	"github.com/sassoftware/relic/v8/zz_verif/core"
+	"github.com/sassoftware/relic/v8/zz_verif/simhook"
 	"github.com/sassoftware/relic/v8/zz_verif/world"
 )
 
@@ -77,6 +79,14 @@ func c14Isolation(r *core.Run, scheduled bool) {
 	// the tokens may be served the way PKCS#11 tokens are: through a worker
 	// token, every operation an RPC to the worker's handler
 	workerBacked := t.Chance(1, 3, "worker-backed-token")
+	// timestamping keys: the process-wide timestamp client is built lazily by
+	// the first request that needs it.  Its trusted-roots file does not exist
+	// when the server starts and appears at a tape-chosen instant: requests on
+	// a timestamping key that end before that instant fail (as each of them
+	// would alone), requests that start after it succeed (as each would alone)
+	tsMode := scheduled && t.Chance(1, 3, "timestamping")
+	caAt := time.Duration(t.Choose(400, "roots-file-appears-at"))*10*time.Millisecond + 5*time.Millisecond
+	tsKey := map[string]bool{"rsa1": true, "ec1": true}
 	slowTokens := t.Chance(1, 2, "slow-tokens")
 	tokDelay := map[string][]time.Duration{}
 	if slowTokens {
@@ -113,9 +123,28 @@ func c14Isolation(r *core.Run, scheduled bool) {
 			cfg.Tokens["tokA"].Type = simWorkerType
 			cfg.Tokens["tokB"].Type = simWorkerType
 		}
+		if tsMode {
+			cfg.Timestamp = &config.TimestampConfig{URLs: []string{"http://tsa1.sim/rfc3161"}, Timeout: 5, CaCert: w.Path("tsa-roots.pem")}
+			cfg.Keys["rsa1"].Timestamp = true
+			cfg.Keys["ec1"].Timestamp = true
+		}
 		must(cfg.Normalize(""))
 		defer useConfig(cfg)()
 		world.Bind(w)
+		if tsMode {
+			tsa := world.NewTSA(w)
+			tsa.Plan = func(url string, n int, legacy bool) world.TSAOutcome { return world.TSAOutcome{Kind: "valid"} }
+			signinit.ZZResetTimestamper()
+			defer signinit.ZZResetTimestamper()
+			simhook.SetHTTPRoundTrip(tsa.RoundTrip)
+			defer simhook.SetHTTPRoundTrip(nil)
+			w.Sched.Go("admin", func() {
+				w.Sleep(caAt)
+				w.WriteFile("tsa-roots.pem", pem.EncodeToMemory(&pem.Block{Type: "CERTIFICATE", Bytes: pki["client-fp-1"].Cert.Raw}))
+				w.Logf("trusted-roots file of the timestamp client written")
+			})
+			r.Probe("timestamp-client-built-lazily")
+		}
 		if workerBacked {
 			wrt, restore := useSimWorker(w)
 			defer restore()
@@ -388,6 +417,27 @@ func c14Isolation(r *core.Run, scheduled bool) {
 				// nobody else may be affected
 				r.Probe("caller-gave-up")
 				break
+			}
+			if tsMode && tsKey[keyTarget[rq.Key]] && c.Flags.Get("no-timestamp") == "" {
+				// the key asks for a timestamp: alone, this request fails while the
+				// timestamp client cannot be built and succeeds once it can
+				if rq.End < caAt {
+					r.Probe("request-before-timestamp-client-can-be-built")
+					if ok {
+						r.Failf("C14.wrong-result", "signed-without-timestamper/"+c.Mod, "the key asks for a timestamp and the timestamp client cannot be built yet (trusted-roots file appears at %v), yet the request succeeded: %s", caAt, desc)
+					} else if byFile[c.File] != 0 {
+						r.Failf("C14.audit-count", "failed-but-recorded", "failed request has an audit record: %s", desc)
+					}
+					break
+				}
+				if rq.Start <= caAt {
+					// overlaps the instant: either outcome is what it would get alone
+					if !ok {
+						break
+					}
+				} else {
+					r.Probe("request-after-timestamp-client-can-be-built")
+				}
 			}
 			if !ok {
 				r.Failf("C14.wrong-result", "sign-failed/"+c.Mod, "request that succeeds in isolation failed (%s): %s", firstLine(rq.Body), desc)
